@@ -208,6 +208,21 @@ def Variants.allUnit : Variants → Bool
   | .cons _ .unit r => r.allUnit
   | .cons _ _ _ => false
 
+/-- a type that carries no data: traced as Null (`()`, unit structs, Option / newtype wrappers of those) -/
+def isNullTy : Ty → Bool
+  | .unit | .unitStruct _ => true
+  | .option t | .newtype _ t => isNullTy t
+  | _ => false
+
+/-- an enum "without data" as the tracer sees it (`UnionTracer::is_without_data`): every variant is a unit variant or
+a newtype variant around a data-less type (its tracer is a Null primitive).  Model repair: the mapping used `allUnit`
+(unit variants only), but `enum E { A, B(()) }` is traced to a Dictionary under `enums_without_data_as_strings` too. -/
+def Variants.withoutData : Variants → Bool
+  | .nil => true
+  | .cons _ .unit r => r.withoutData
+  | .cons _ (.newtype t) r => isNullTy t && r.withoutData
+  | .cons _ _ _ => false
+
 mutual
 /-- data type, nullability and metadata of the field a type is traced to -/
 def mappingDT (o : TraceOpts) : Ty → DataType × Bool × Metadata
@@ -226,7 +241,7 @@ def mappingDT (o : TraceOpts) : Ty → DataType × Bool × Metadata
   | .struct _ fs => (.struct (mappingFields o fs), false, [])
   | .newtype _ t => mappingDT o t
   | .enum _ vars =>
-    if vars.allUnit && o.enumsWithoutDataAsStrings then (.dictionary .uint32 (strDT o), false, [])
+    if vars.withoutData && o.enumsWithoutDataAsStrings then (.dictionary .uint32 (strDT o), false, [])
     else (.union (mappingVariants o 0 vars) .dense, false, [])
   | .map k v =>
     let (kdt, knb, kmd) := mappingDT o k
